@@ -525,7 +525,7 @@ t_gcm_cfb_quic(void)
                         if (l > 600 && !((l >= 1023 && l <= 1025) || (l >= 2047 && l <= 2049) || (l >= 4064 && l <= 4081) || l >= 8191))
                                 continue; /* dense, then the block-count boundaries of the 8/16/32/48-block loops */
                         for (int d = 0; d < 2; d++) {
-                                uint32_t aadl = l % 27, tl = 16 - (l % 5);
+                                uint32_t aadl = l % 27, tl = 1 + (l * 7 + (uint32_t) d) % 16; /* every tag length 1..16 */
                                 const uint8_t *in = inbuf(0, l, 6000 + l);
                                 uint8_t *out = outbuf(0, l);
                                 uint8_t *iv = place(RIV[0], 12);
